@@ -41,6 +41,7 @@ type srvInfo struct {
 	SkipExp   bool         // auth.oidc.skipExpiryCheck
 	NoInc     bool         // no incumbent (oidc skip-option matrix servers)
 	Terse     bool         // detailedErrorsToClient = false
+	Plugin    string       // address of a Login server plugin ("" = none)
 	SSHLogins atomic.Int64 // legitimate logins through this server's ssh gateway so far
 
 	Inc       *honest // scripted incumbent
@@ -104,6 +105,9 @@ func (s *srvInfo) cfgText() string {
 		if s.SSHKeys {
 			fmt.Fprintf(&b, "sshTunnelGateway.authorizedKeysFile = \"%s\"\n", sshAuthKeysFile)
 		}
+	}
+	if s.Plugin != "" { // array of tables: must stay the last element of the document
+		fmt.Fprintf(&b, "[[httpPlugins]]\nname = \"login-gate\"\naddr = \"%s\"\npath = \"/handler\"\nops = [\"Login\"]\n", s.Plugin)
 	}
 	return b.String()
 }
